@@ -281,6 +281,28 @@ class Runner:
             except Exception as e:
                 self.bad(case, ctx, "expand", "re-expansion of %r raised %r" % (e1, e))
 
+        # (e') the same classification with the folders the REAL Manifest reports for the keys of the context
+        #      (Manifest.top_level_folders -> ParseDataReferenceFull / is_datareference_to_component / expand_component_references)
+        if cls != "unspecified":
+            rtlf = list(self.manifest_tlf[ctx.id])
+            root = None
+            if sorted(set(rtlf)) != ctx.toplevel:
+                root = "manifest:nested-key-top-level-folder" if any("/" in k for k in ctx.keys) else "manifest:top-level-folders"
+            try:
+                f2 = F.ParseDataReferenceFull(s, n, deps, rtlf)[0]
+                c2 = F.is_datareference_to_component(s, rtlf + sorted(set(ctx.depnames.values())))
+                e2 = F.expand_component_references([s], n, ctx.known, deps, rtlf)[0]
+                if cls == "direct":
+                    ok = f2 is None and c2 is False and e2 == s
+                else:
+                    ok = f2 == resolved and c2 is True and e2 == R(case["absolute"])
+                if not ok:
+                    self.bad(case, ctx, "classify-%s-with-manifest-folders" % cls,
+                             "with top_level_folders=Manifest(%s).top_level_folders=%s the %s reference gives ParseDataReferenceFull stage %r, "
+                             "is_datareference_to_component %r, expand_component_references %r" % (ctx.keys, rtlf, cls, f2, c2, e2), root=root)
+            except Exception as e:
+                self.bad(case, ctx, "classify-%s-with-manifest-folders" % cls, "raised %r" % e, root=root)
+
         # (f) end to end: the validator, given the folders of the real Manifest, accepts direct references and references
         #     to known components
         #     (a sub-family: every direct reference with two of the methods, every component reference without a file)
